@@ -42,6 +42,10 @@ def val(v):
         return Rest(num(v[1]))
     if k == 'ri':
         return Rest(num(v[1], True))
+    if k == 'ra':                # arithmetic on values (Rest or plain) done by Python itself
+        import operator
+        f = {'add': operator.add, 'sub': operator.sub, 'mul': operator.mul, 'div': operator.truediv}[v[1]]
+        return f(val(v[2]), val(v[3]))
     if k == 's':
         return v[1]
     if k == 'b':
@@ -56,6 +60,12 @@ def val(v):
 
 def vseq(s):
     from sc3.seq.patterns.listpatterns import Pseq
+    if s[0] == 'finop':          # k (op) Pseq([...]) or Pseq([...]) (op) k: element-wise through Pbinop
+        import operator
+        from sc3.seq.patterns.listpatterns import Pseq as _Pseq
+        f = {'add': operator.add, 'sub': operator.sub, 'mul': operator.mul, 'div': operator.truediv}[s[1]]
+        p = _Pseq([val(x) for x in s[4:]], 1)
+        return f(val(s[3]), p) if s[2] == 'L' else f(p, val(s[3]))
     kind, vals = s[0], [val(x) for x in s[1:] if x != 'seq']
     if kind == 'cyc':
         if len(vals) == 1 and s[-1] != 'seq':
